@@ -585,7 +585,7 @@ def main():
     print("MANIFEST.json: %d checks, %d not_applicable" % (len(checks), len(na)))
 
 
-HOOK_COMMITS = ["d66e8a5"]
+HOOK_COMMITS = ["d66e8a5", "4a8eee1"]
 
 if __name__ == "__main__":
     main()
